@@ -246,6 +246,17 @@ fn judge(c: &Cfg, faults: &[(u64, FaultKind)], draws: &[DrawObs], p: &mut Partia
                 viol("divergent-draw-without-momentum-refresh", format!("draw {d}"), p);
                 return;
             }
+            // in the microcanonical phase the fresh momentum is a unit vector: the last momentum
+            // drawn in this draw is followed by a projection onto the sphere
+            if expect_micro {
+                let last_gauss = dr.events.iter().rposition(|e| matches!(e, SpyEvent::Gaussian { .. })).unwrap_or(0);
+                let normalised = dr.events[last_gauss..].iter().any(|e| matches!(e, SpyEvent::Normalize { .. }));
+                p.count("divergent_microcanonical_draws_checked_for_a_unit_refresh", 1);
+                if !normalised {
+                    viol("divergent-draw-keeps-a-momentum-off-the-unit-sphere", format!("draw {d}: the momentum drawn after the divergence is not normalised"), p);
+                    return;
+                }
+            }
         }
         if dr.pos.iter().any(|x| !x.is_finite()) {
             viol("non-finite-position", format!("draw {d}"), p);
